@@ -9,7 +9,7 @@ from ..model import AnalysisError, Func, Program, walk_own
 from ..report import Report
 from ..resolve import const_value, dotted
 from ..util import assigned_value, iter_stores, returns_of, src
-from .cachefam import (CACHES_MOD, CacheFacts, rule_coherence_capacity, rule_invalidation, rule_list_ops, rule_value_stored)
+from .cachefam import (CACHES_MOD, CacheFacts, rule_coherence_capacity, rule_invalidation, rule_list_ops, rule_lookup_source, rule_value_stored)
 
 
 def run(prog: Program, rep: Report):
@@ -22,6 +22,11 @@ def run(prog: Program, rep: Report):
     r5_helper(prog, rep, cf, helper, count_field)
     r6_item_layout(prog, rep, cf, count_field)
     rule_list_ops(prog, rep, cf, "C07.R7")
+    rule_lookup_source(prog, rep, cf, "C07.R8")
+    from .memo import public_entry_points, rule_derived_state
+    rule_derived_state(prog, rep, "C07.R9", cf.cls, {cf.dict_field, cf.list_field}, public_entry_points(prog, cf.cls), config={cf.cap_field},
+                       what="a snapshot of the order, a remembered node or a bound method of the list must not survive a store, delete, "
+                            "eviction or clear")
 
 
 def find_increment_helper(prog, cf: CacheFacts):
